@@ -2,7 +2,8 @@
    harness/cmd/writer.
    input  line: <id> <op> <args...>
    output line: <id> <model result>
-   ops: add / size / wm  step-level differential (model result = what the Go code must print)
+   ops: add / size / wm / prr / pr  step-level differential (model result = what the Go code must print;
+                         prr / pr = Client.Produce's response mapping, prr over all 65536 error codes)
         e2e              recorded history of the real Writer: the extracted history predicates
                          (the definitions of Model/Writer.v) are evaluated on it; for
                          deterministic scenarios the model is RUN with the recorded environment
@@ -101,7 +102,9 @@ let reaction_of applied seen =
   match applied, seen with
   | true, None -> Some AppliedAcked
   | true, Some e -> Some (AppliedLost e)
-  | false, Some e -> Some (if int_of_n e < 1000 then RejectedCode e else NotApplied e)
+  | false, Some e ->
+    (* 1001..1099 = transport errors; everything else is a partition error code (c, or 65536+c for c < 0) *)
+    let v = int_of_n e in Some (if v >= 1001 && v <= 1099 then NotApplied e else RejectedCode e)
   | false, None -> None
 
 let op_e2e (words : string list) : string =
@@ -328,8 +331,27 @@ let op_f3 (cfgw : string) : string =
     cl ^ ":" ^ a
   end
 
+(* Client.Produce response mapping (produce_error / make_time_ms of Model/Writer.v) *)
+let int16_of_u16 u = if u >= 32768 then u - 65536 else u
+let err_str code = match produce_error code with None -> "-" | Some c -> hex_of_z c
+let op_prr lo hi =
+  let lo = ioh lo and hi = ioh hi in
+  String.concat "," (List.init (hi - lo + 1) (fun i ->
+    let code = z_of_int (int16_of_u16 (lo + i)) in
+    (* the verdict the LTS is driven with agrees: success iff code 0 *)
+    let r = reaction_of_code code in
+    if (r_seen r = None) <> (produce_error code = None) then "SPECDIFF" else err_str code))
+let op_pr code th bo lat lso recs =
+  let recs = List.sort compare (List.map (fun x -> int_of_z (z_of_hex x)) (split ',' recs)) in
+  Printf.sprintf "%s:%s:%s:%s:%s:%s" (err_str (z_of_hex code)) (hex_of_z (z_of_hex th)) (hex_of_z (z_of_hex bo))
+    (match make_time_ms (z_of_hex lat) with None -> "-" | Some t -> hex_of_z t)
+    (hex_of_z (z_of_hex lso))
+    (if recs = [] then "." else String.concat "," (List.map (fun i -> hex_of_z (z_of_int i)) recs))
+
 let eval (op : string) (a : string list) : string =
   match op, a with
+  | "prr", [lo; hi] -> op_prr lo hi
+  | "pr", [code; th; bo; lat; lso; _hasmsg; recs] -> op_pr code th bo lat lso recs
   | "add", [bs; bb; sizes] -> op_add bs bb sizes
   | "size", [k; v] ->
     let f s = if s = "-" then N0 else n_of_hex s in
